@@ -236,8 +236,12 @@ func exhaustive(r *corr.Run, run func(n int, batch int, body func(w *world)) boo
 			total *= alphabet
 		}
 		// first op is add@0 or snapshot@0
+		// visit the codes of this depth in a seed-dependent order (an odd stride is a permutation
+		// of 0..8^k-1), so that different seeds cover different parts of a depth that does not fit
+		offset, stride := r.Intn(total), 2*r.Intn(total/2+1)+1
 		for first := 0; first <= 2 && r.Issues() == 0; first += 2 {
-			for code := 0; code < total; code++ {
+			for k := 0; k < total; k++ {
+				code := (offset + k*stride) % total
 				if !r.TimeLeft() {
 					complete = false
 					break
